@@ -22,7 +22,7 @@ mode = os.environ.get("MODE", "hist" if profile == "hist" else "")
 w = Work("try")
 os.environ["VERIF_KEEP"] = "1"
 b = build_harness(w)
-scns = gen_scenarios(w, "Gen", {"Deviations": tla_set(devs), "Depth": depth, "Mode": '"%s"' % mode}, num, depth, seed, "gen", "g",
+scns = gen_scenarios(w, "Gen", {"Deviations": tla_set(devs), "Depth": depth, "Mode": '"%s"' % mode, "Scripted": os.environ.get("SCRIPTED", "FALSE")}, num, depth, seed, "gen", "g",
    defs={"KindBag": PROFILES.get(profile) or ("<<" + ",".join('"%s"' % k for k in profile.split("+")) + ">>")})
 for s in scns:
     s["epilogue"] = True
